@@ -5,13 +5,14 @@ Line-protocol driver for the market model (correspondence check (H) for C01–C0
 
 Lines (tokens separated by blanks, `-` = None; prices are monotone integer keys of doubles):
   CASE <id>
-  S <time> <running> <nextId> <nb> {order}* <ns> {order}* <ng> {order reason}* <slot> <haspast> [<slot>]
+  S <time> <running> <nextId> <nb> {order}* <ns> {order}* <ng> {order reason}* <slot> <npast> {slot}*   (past slots, most recent first)
         order := <id> <agent> <isBuy> <price|-> <vol> <placedAt> <ttl|->     reason := 0|1|2
         slot  := <market|-> <last|-> <mid|-> <fund|-> <execVol> <turnover> <nBuy> <nSell>
   O add <marketOk> <stamped> <agent> <isBuy> <rawPrice|-> <snappedPrice|-> <vol> <ttl|->
   O cancel <orderId>
   O exec
   O tick <fund|->
+  O jump <k> <fund|->                          `_set_time(time + k, fund)`
   O run <0|1>
   R add <id> <time> <agent> <isBuy> <price|-> <vol> <ttl|->
   R cancel <id> <cancelTime> <orderTime> <agent> <isBuy> <price|-> <vol> <ttl|->
@@ -58,8 +59,8 @@ def pState : Parser (Market Px) := do
   let ns ← nat; let sells ← many ns pOrder
   let ng ← nat; let gone ← many ng pGone
   let cur ← pSlot
-  let hp ← bool
-  let past ← if hp then (do let s ← pSlot; pure [s]) else pure []
+  let np ← nat
+  let past ← many np pSlot
   pure { time, running, nextId, buys, sells, gone, cur, past }
 
 def showOrder (o : Order Px) : String :=
@@ -110,6 +111,11 @@ def applyOp (m : Market Px) (toks : List String) : Except String (Market Px × S
     | .error e => pure (m, s!"err {showErr e}")
   | ["tick", fund] =>
     let (m', logs) := m.tick (floatOps none) (optInt fund)
+    let logs := sortById (·.id) logs
+    pure (m', s!"tick {logs.length}" ++ String.join (logs.map (fun l =>
+      s!" {l.id} {l.time} {l.orderTime} {l.agent} {if l.isBuy then 1 else 0} {showOpt l.price} {l.vol} {showOpt l.ttl}")))
+  | ["jump", k, fund] =>
+    let (m', logs) := m.setTime (floatOps none) k.toNat! (optInt fund)
     let logs := sortById (·.id) logs
     pure (m', s!"tick {logs.length}" ++ String.join (logs.map (fun l =>
       s!" {l.id} {l.time} {l.orderTime} {l.agent} {if l.isBuy then 1 else 0} {showOpt l.price} {l.vol} {showOpt l.ttl}")))
